@@ -304,34 +304,32 @@ func funcToList(kv KVPair, args []Expression, ctx *ExecuteCtx) (any, error) {
 		return []int64{}, nil
 	}
 
-	first, err := args[0].Execute(kv, ctx)
-	if err != nil {
-		return nil, err
-	}
-	useInt := false
+	// The kind of the elements is decided by all the arguments: integers if
+	// every argument is one, floats if every argument is a number, texts as
+	// soon as one argument is a text that is not a number
+	useInt := true
 	useStr := false
-	switch fval := first.(type) {
-	case string:
-		if _, err := strconv.ParseInt(fval, 10, 64); err == nil {
-			useInt = true
-		} else if _, err := strconv.ParseFloat(fval, 64); err == nil {
-			useInt = false
-		} else {
-			// A text that is not a number: a list of texts
-			useStr = true
+	for _, arg := range args {
+		val, err := arg.Execute(kv, ctx)
+		if err != nil {
+			return nil, err
 		}
-	case []byte:
-		if _, err := strconv.ParseInt(string(fval), 10, 64); err == nil {
-			useInt = true
-		} else if _, err := strconv.ParseFloat(string(fval), 64); err == nil {
+		switch fval := val.(type) {
+		case string, []byte:
+			text := toString(fval)
+			if _, err := strconv.ParseInt(text, 10, 64); err == nil {
+				// An integer
+			} else if _, err := strconv.ParseFloat(text, 64); err == nil {
+				useInt = false
+			} else {
+				// A text that is not a number: a list of texts
+				useStr = true
+			}
+		case int, uint, int32, uint32, int64, uint64:
+			// An integer
+		default:
 			useInt = false
-		} else {
-			useStr = true
 		}
-	case int, uint, int32, uint32, int64, uint64:
-		useInt = true
-	case float32, float64:
-		useInt = false
 	}
 	if useStr {
 		return funcStrList(kv, args, ctx)
